@@ -340,6 +340,10 @@ def generic_rules(ctx) -> None:
         if dp:
             ctx.chk.ok(f"{ctx.chk.prop}.dead-parameter", "anchor modules", f"{dp} parameters of non-interface functions scanned; every one is read by its body (3 frozen exceptions)")
         from .engines import typecmp
+        # embedded positive example (a rule whose expected count is zero must still be able to match)
+        _pos = type("M", (), {"tree": ast.parse("class K:\n    def get_value(self) -> int:\n        return 1\n    def f(self, o):\n        if o.get_value() == 'UserDefined':\n            return 1\n        return o.get_value() == 3\n"), "relpath": "<positive example>"})()
+        if len(list(typecmp.dead_comparisons(_pos, typecmp.return_table([_pos])))) != 1:
+            raise AnalysisError("typed-comparison: embedded positive example no longer matches exactly once")
         tab = typecmp.return_table(ctx.prog.modules.values())
         tc = 0
         for rp in files:
